@@ -10,6 +10,7 @@ from .c09 import applicable, ALL as LIMIT_KEYS
 
 PROP = "C12"
 LEVEL = "exploration"
+ANCHORS = ["from_file", "System.save", "_get_applims", "_get_childs_tree"]  # functions whose reached lines are reported in the evidence
 RULE = (
     "cases = full-feature random SystemSpecs (all kinds and parameter forms incl. tables, diode and MOSFET "
     "rectifiers carrying current, LinReg via the deprecated iq keyword, several sources, a PMux whose inputs are "
